@@ -11,7 +11,7 @@ from __future__ import annotations
 import ast
 from typing import Dict, List, Optional, Set, Tuple
 
-from .model import ClassInfo, FuncInfo, Repo, TypeEnv, attr_chain, parent, walk_shallow
+from .model import AnalysisError, ClassInfo, FuncInfo, Repo, TypeEnv, attr_chain, parent, walk_shallow
 from .report import RuleRun
 
 P, V, S, U = "P", "V", "S", "?"
@@ -455,6 +455,10 @@ def _normalising_params(repo: Repo, depth: int = 3) -> Dict[str, Set[str]]:
         uses = [n for n in ast.walk(fn.node) if isinstance(n, ast.Name) and n.id in alias and isinstance(n.ctx, ast.Load)]
         if not uses:
             return False
+        # `normal = unit_vector(normal)` as a statement of the function body: from there on the name holds the unit vector
+        rebound = [st.lineno for st in fn.node.body if isinstance(st, ast.Assign) and len(st.targets) == 1 and isinstance(st.targets[0], ast.Name) and st.targets[0].id == name and isinstance(st.value, ast.Call) and (attr_chain(st.value.func) or "").split(".")[-1] == "unit_vector" and st.value.args and isinstance(st.value.args[0], ast.Name) and st.value.args[0].id in alias]
+        if rebound:
+            uses = [u for u in uses if u.lineno <= min(rebound)]
         for u in uses:
             p = parent(u)
             if isinstance(p, ast.Call) and u in p.args:
@@ -561,4 +565,48 @@ def unit_axis_rule(repo: Repo, prop: str, rule_id: str, floor: int = 1) -> RuleR
                         key=f"use:{m.name}#{k}",
                     )
                     k += 1
+    return r
+
+
+
+def direction_length_rule(repo: Repo, prop: str, rule_id: str, module_prefixes: Tuple[str, ...] = ("util.functions",)) -> RuleRun:
+    """A parameter that a function only ever uses normalised (unit_vector(p), p / norm(p), handed on to such a parameter) is a
+    DIRECTION: the caller may give it any length - the cross product of two edges of a millimetre-sized model is 1e-6 long. Its
+    length therefore means nothing and is never compared with a tolerance (`if norm(normal) < TOL: return point` makes a mirror
+    plane given by a short normal the identity). Expected count zero; the matcher is exercised on an embedded example on every run."""
+    r = RuleRun(prop, rule_id, floor=1, what="the length of a direction-only parameter (one the function uses only normalised) is never compared with a tolerance")
+
+    def tests(node: ast.AST, names) -> List[ast.Compare]:
+        out = []
+        for c in ast.walk(node):
+            if not (isinstance(c, ast.Compare) and len(c.ops) == 1 and isinstance(c.ops[0], (ast.Lt, ast.LtE, ast.Gt, ast.GtE))):
+                continue
+            for side in (c.left, c.comparators[0]):
+                if isinstance(side, ast.Call) and (attr_chain(side.func) or "").split(".")[-1] == "norm" and side.args and isinstance(side.args[0], ast.Name) and side.args[0].id in names:
+                    out.append(c)
+        return out
+
+    probe = ast.parse("def mirror(point, normal, origin):\n    if norm(normal) < TOL:\n        return point\n    n = unit_vector(normal)\n    if norm(point - origin) < TOL:\n        return point\n    return n")
+    if len(tests(probe, {"normal"})) != 1:
+        raise AnalysisError(f"{rule_id}: the matcher no longer recognises its embedded example")
+    norm_params = _normalising_params(repo)
+    n = 0
+    for fn in sorted(repo.all_functions(), key=lambda f: f.qualname):
+        short = fn.module.name[len("classy_blocks.") :] if fn.module.name.startswith("classy_blocks.") else fn.module.name
+        if not any(short.startswith(p_) for p_ in module_prefixes):
+            continue
+        names = norm_params.get(fn.qualname, set())
+        if not names:
+            continue
+        n += 1
+        for k, c in enumerate(tests(fn.node, names)):
+            r.bad(
+                fn,
+                f"{fn.qualname} compares the LENGTH of its direction-only parameter ('{ast.unparse(c)[:60]}') with a tolerance: the parameter is otherwise used only normalised, so callers may pass it at any "
+                "length - a normal of 1e-8 (the cross product of two edges of a small model) is a perfectly good plane, yet it is treated as 'no direction'",
+                c,
+                key=f"length-test#{k}",
+            )
+    r.require(n >= 3, f"only {n} functions with direction-only parameters found")
+    r.ok(None, f"{n} functions with direction-only parameters scanned; matcher verified on its embedded example", key="scan")
     return r
